@@ -1258,7 +1258,7 @@ func (m *Model) jdel(args []string) (respc.Reply, bool) {
 			o.Pt = o.Pt[:2]
 			o.Text = pointText(o.Pt)
 			o.HasEx = false
-			return respc.Simple("OK"), true
+			return respc.Int(1), true
 		}
 		return respc.Reply{}, false
 	}
